@@ -283,6 +283,15 @@ Definition run (v : wv) : wv :=
           wok [WL (map (fun e => WL [WI (fst e); wbool (snd e)]) (fst r)); enc_handler (snd r);
                wtext (lead_ident t); wbool (top_target t)]
       | _, _, _ => wbad end
+  | WL [WI 23; e; l] =>
+      (* the end of the dispatch loop: what happens to a line no recogniser took (0 expression branch, 1 skipped:
+         no meaning on the device, 2 rejected, 3 dropped); whether a failed expression translation raises *)
+      match un_bool e, un_text l with
+      | Some isexpr, Some t =>
+          wok [WI (tail_class_id (tail_class_of tail_benign_eq tail_benign_rx tail_rejects isexpr t));
+               wbool tail_expr_failure_rejects;
+               WL (map (fun e => WL [WI (fst e); wbool (snd e)]) (tail_trace tail_benign_eq tail_benign_rx isexpr t))]
+      | _, _ => wbad end
   | WL [WI 20; WI k; nm; me; ar; WL gs] =>
       (* SPEC renderers of the spacing theorems: the line, is it inside the guard, what its shape says *)
       match un_text nm, un_text me, un_text ar, un_gaps gs with
